@@ -181,7 +181,10 @@ func c11Scenario(h *H, root string, ti int) {
 	cli0.Extra = cliExtra
 	cli0.MustRun("init")
 	c11Grow(h, tree, 0, 1+h.Intn(2))
-	cli0.MustRun("backup", src)
+	if r := cli0.Run("backup", src); r.Err != nil {
+		c11EmitSetupFailure(h, r)
+		return
+	}
 	type old struct {
 		id   string
 		want map[string][32]byte
@@ -189,7 +192,10 @@ func c11Scenario(h *H, root string, ti int) {
 	olds := []old{{c26SnapshotIDs(be0)[0], tree.snapshotHashes()}}
 	if h.Bool() {
 		c11Grow(h, tree, 1, 1)
-		cli0.MustRun("backup", src)
+		if r := cli0.Run("backup", src); r.Err != nil {
+			c11EmitSetupFailure(h, r)
+			return
+		}
 		for _, id := range c26SnapshotIDs(be0) {
 			if id != olds[0].id {
 				olds = append(olds, old{id, tree.snapshotHashes()})
@@ -276,11 +282,12 @@ func c11Scenario(h *H, root string, ti int) {
 	}
 
 	rec0, res0, _ := exec(c11Run{"complete", 0})
-	if res0.Err != nil {
-		panic(fmt.Sprintf("c11: reference backup failed: %v\n%s", res0.Err, res0.Stderr))
-	}
 	n := rec0.Mutations()
 	runs := []c11Run{{"complete", n}}
+	if res0.Err != nil {
+		// a backup without any injected fault failed: reported through the complete-run case below
+		n = 0
+	}
 	for k := 0; k < n; k++ {
 		runs = append(runs, c11Run{"crash", k})
 	}
@@ -300,7 +307,7 @@ func c11Scenario(h *H, root string, ti int) {
 			nLoads++
 		}
 	}
-	for j := h.Intn(step * 2); j < nLoads && j < 40; j += step * 2 {
+	for j := h.Intn(step * 2); n > 0 && j < nLoads && j < 40; j += step * 2 {
 		runs = append(runs, c11Run{"loadfail", j})
 	}
 	for _, r := range runs {
@@ -327,7 +334,11 @@ func c11Scenario(h *H, root string, ti int) {
 		a12EmitState(h, dec, in, base, "r0")
 		a12EmitEvents(h, dec, in, "w", rec.Events, after)
 		a12EmitState(h, dec, in, after, "s1")
-		h.Rec("res", Itoa(res.Exit), B(r.mode == "complete"), HexS(firstLine(res.Stderr)))
+		rmsg := firstLine(res.Stderr)
+		if res.Err != nil {
+			rmsg = res.Err.Error() + " | " + rmsg
+		}
+		h.Rec("res", Itoa(res.Exit), B(r.mode == "complete"), HexS(rmsg))
 		// real check on the state the run left behind
 		cbe := LoadBackend(after)
 		a12RemoveLocks(cbe)
@@ -390,6 +401,21 @@ func c11Scenario(h *H, root string, ti int) {
 		h.Rec("labels", lbl...)
 		h.End()
 	}
+}
+
+// c11EmitSetupFailure: a plain backup (no fault injected) failed while building the scenario;
+// that is itself an observation about the implementation, reported as a complete-run case.
+func c11EmitSetupFailure(h *H, r CmdResult) {
+	h.Case("backup")
+	h.Rec("mode", "complete", "0", "0")
+	h.Rec("last", "none", "0")
+	msg := firstLine(r.Stderr)
+	if r.Err != nil {
+		msg = r.Err.Error() + " | " + msg
+	}
+	h.Rec("res", Itoa(r.Exit), "1", HexS(msg))
+	h.Rec("labels", "setup-backup-failed")
+	h.End()
 }
 
 func minInt(a, b int) int {
